@@ -6,8 +6,9 @@ CONSTANTS
   Extras <- small_Extras
   PreSizes <- small_Pre
   PreActive <- small_PreActive
-  MaxSteps = 8
+  MaxWrites = 8
   Dev_RawLenTest = TRUE
+  EmitHist = FALSE
 INIT Init
 NEXT Next
 VIEW View
